@@ -24,6 +24,10 @@ const inlineMaxInstrs = 120
 var inlineDepth = 0
 
 func inlinable(caller, callee *ssa.Function) bool {
+	return inlinableLoops(caller, callee, false)
+}
+
+func inlinableLoops(caller, callee *ssa.Function, allowLoops bool) bool {
 	if callee == nil || callee == caller || len(callee.Blocks) == 0 || len(callee.FreeVars) > 0 {
 		return false
 	}
@@ -52,7 +56,7 @@ func inlinable(caller, callee *ssa.Function) bool {
 		color[b] = 2
 	}
 	dfs(callee.Blocks[0])
-	if loop {
+	if loop && !allowLoops {
 		return false
 	}
 	for _, b := range callee.Blocks {
@@ -73,8 +77,14 @@ func inlinable(caller, callee *ssa.Function) bool {
 
 // tryInline executes callee in place. ok=false: nothing was changed (the caller falls back).
 func (fv *FuncVerifier) tryInline(st *State, instr ssa.Instruction, callee *ssa.Function, args []Value, pos token.Pos) (res Value, ok bool) {
+	return fv.tryInlineWith(st, instr, callee, args, pos, nil)
+}
+
+// tryInlineWith: ic != nil is the callee's own contract carrying "inline" and, for each of its
+// loops, "loop k unroll n"; the body is then executed path by path.
+func (fv *FuncVerifier) tryInlineWith(st *State, instr ssa.Instruction, callee *ssa.Function, args []Value, pos token.Pos, ic *FuncContract) (res Value, ok bool) {
 	callVal, isVal := instr.(ssa.Value)
-	if !isVal || inlineDepth >= 3 || !inlinable(fv.fn, callee) || len(args) != len(callee.Params) {
+	if !isVal || inlineDepth >= 3 || !inlinableLoops(fv.fn, callee, ic != nil) || len(args) != len(callee.Params) {
 		if os.Getenv("GOVC_DEBUG_INLINE") != "" {
 			fmt.Fprintf(os.Stderr, "not inlining %s into %s: value=%v depth=%d inlinable=%v args=%d/%d blocks=%d freevars=%d pkg=%v\n", callee, fv.fn, isVal, inlineDepth, inlinable(fv.fn, callee), len(args), len(callee.Params), len(callee.Blocks), len(callee.FreeVars), callee.Pkg)
 		}
@@ -90,6 +100,17 @@ func (fv *FuncVerifier) tryInline(st *State, instr ssa.Instruction, callee *ssa.
 	fv2.inlineRets = &rets
 	fv2.loops = nil
 	fv2.retOrd = map[*ssa.Return]int{}
+	if ic != nil {
+		fc2 := *fv.fc
+		fc2.Loops = ic.Loops
+		fv2.fc = &fc2
+		fv2.findLoops()
+		for _, li := range fv2.loops {
+			if li.lc == nil || li.lc.Unroll <= 0 {
+				panic("inline: loop without an unroll bound")
+			}
+		}
+	}
 	defer func() {
 		if r := recover(); r != nil {
 			// out of the subset, or an internal limitation: undo and let the caller havoc
@@ -113,7 +134,11 @@ func (fv *FuncVerifier) tryInline(st *State, instr ssa.Instruction, callee *ssa.
 	// the callee has no defer statements of its own; its RunDefers must not run the caller's
 	callerDefers := st.defers
 	work.defers = nil
-	fv2.runMerged(work)
+	if ic != nil && len(fv2.loops) > 0 {
+		fv2.runBlock(work, callee.Blocks[0])
+	} else {
+		fv2.runMerged(work)
+	}
 	fv.obs, fv.errs = fv2.obs, fv2.errs
 	fv.paths, fv.panicPaths = fv2.paths, fv2.panicPaths
 	if len(fv.errs) > nErrs {
